@@ -40,12 +40,13 @@ STYLE_MAP_REL = "http://schemas.zwobble.org/mammoth/style-map"
 class Spelling:
     def __init__(self, strict=False, rename_prefixes=False, default_ns=False, declaration="standalone", encoding="utf-8",
                  bom=False, cdata=False, charrefs=False, comments=False, pis=False, whitespace=False, zip_order="normal",
-                 compression=zipfile.ZIP_DEFLATED, rename_parts=False, noise=False, rng=None):
+                 compression=zipfile.ZIP_DEFLATED, rename_parts=False, noise=False, rng=None, nested_default_ns=False):
         self.strict, self.rename_prefixes, self.default_ns = strict, rename_prefixes, default_ns
         self.declaration, self.encoding, self.bom = declaration, encoding, bom
         self.cdata, self.charrefs, self.comments, self.pis, self.whitespace = cdata, charrefs, comments, pis, whitespace
         self.zip_order, self.compression, self.rename_parts, self.noise = zip_order, compression, rename_parts, noise
         self.rng = rng
+        self.nested_default_ns = nested_default_ns
 
     def uri(self, prefix):
         if prefix in TRANSITIONAL:
@@ -109,12 +110,22 @@ class Serializer:
                 out.append(c)
         return '"' + "".join(out) + '"'
 
-    def element(self, x, root=False, default_prefix=None, used=None):
+    def element(self, x, root=False, default_prefix=None, used=None, cur_default=None):
         """returns (xml text, dom) ; dom = ('elem', (uri, local), [((uri, local), value)], [children]) | ('text', s) | ('cdata', s) ..."""
         sp = self.sp
         p, l = split(x.name)
+        local_decl = ""
+        local_dom = []
         if p is None:
             qn, tag = (None, l), l
+        elif sp.nested_default_ns:
+            # every element is written unprefixed; the default namespace is re-declared wherever it changes
+            qn = (sp.uri(p), l)
+            tag = l
+            if cur_default != sp.uri(p):
+                local_decl = ' xmlns="%s"' % sp.uri(p)
+                local_dom = [(("http://www.w3.org/2000/xmlns/", "xmlns"), sp.uri(p))]
+                cur_default = sp.uri(p)
         else:
             qn = (sp.uri(p), l)
             tag = l if (default_prefix == p) else self.prefix(p) + ":" + l
@@ -128,7 +139,8 @@ class Serializer:
             else:
                 attrs_txt.append(" %s:%s=%s" % (self.prefix(ap), al, self.attr_value(v)))
                 attrs_dom.append(((sp.uri(ap), al), v))
-        decl = ""
+        decl = local_decl
+        attrs_dom += local_dom
         if root:
             for q in sorted(used):
                 if q == "xml":
@@ -185,7 +197,7 @@ class Serializer:
                     if sp.pis and sp.rng.random() < 0.1:
                         kids_txt.append("<?mso-application progid=\"Word.Document\"?>")
                         kids_dom.append(("pi", "mso-application", 'progid="Word.Document"'))
-                t, d = self.element(c, False, default_prefix, used)
+                t, d = self.element(c, False, default_prefix, used, cur_default)
                 kids_txt.append(t)
                 kids_dom.append(d)
         if sp.whitespace and kids_dom and kids_dom[-1][0] == "elem" and sp.rng.random() < 0.5:
@@ -213,7 +225,7 @@ class Serializer:
                 for c in x.children:
                     collect(c)
         collect(root)
-        dp = split(root.name)[0] if self.sp.default_ns else None
+        dp = split(root.name)[0] if (self.sp.default_ns and not self.sp.nested_default_ns) else None
         # a default namespace would also capture unprefixed ELEMENT names (none in our grammar); attributes are unaffected
         txt, dom = self.element(root, True, dp, used)
         sp = self.sp
